@@ -295,8 +295,29 @@ def run_single(pid, report_as, a):
         shutil.rmtree(env["TMPDIR"], ignore_errors=True)
         return b, bdir, p.returncode
 
+    def run_batch_retry(b):
+        """An inconclusive batch (harness-level trouble: loaded machine, port stolen, watchdog) is
+        re-run once from scratch; only a batch that is inconclusive twice stays inconclusive.
+        A batch that reported a violation is never re-run."""
+        r = run_batch(b)
+        _, bdir, rc = r
+        try:
+            res = json.load(open(os.path.join(bdir, "result.json")))
+        except Exception:
+            res = None
+        crashed = classify_crash(os.path.join(bdir, "stderr"))
+        retry = False
+        if res is None:
+            retry = not (crashed and crashed[2] and crashed[2].startswith(REPO + "/"))
+        elif res.get("inconclusive") and not res.get("violations"):
+            retry = True
+        if not retry or a.replay:
+            return r
+        os.rename(bdir, bdir + ".try1")
+        return run_batch(b)
+
     with ThreadPoolExecutor(max_workers=max(1, par)) as ex:
-        results = list(ex.map(run_batch, batches))
+        results = list(ex.map(run_batch_retry, batches))
 
     evals = 0
     fps = set()
